@@ -594,7 +594,7 @@ fn execute_once(
         panic,
         exit_code,
         hard_fired: w.hard_fired,
-        stalled: w.stalled || w.missing_program || w.fd_exhausted,
+        stalled: w.stalled || w.missing_program || w.fd_exhausted || (w.gating_fault && w.hard_fired),
         under_shuttle,
         sched_digest: w.sched_digest.0,
         diverged: w.diverged,
